@@ -38,6 +38,18 @@ _none_future = futures.none_future
 MAX_DUMP_INDENT = 40
 
 
+def _prepare_for_reraise(error, task=None):
+    # An exception class may reject attribute assignment (frozen dataclass, __setattr__ that
+    # raises). Such an error must still reach the awaiting tasks instead of escaping from the
+    # scheduler, so it goes on with just the traceback Python itself keeps in __traceback__.
+    try:
+        if task is not None:
+            error._task = task
+        core_errors.prepare_for_reraise(error)
+    except Exception:
+        pass
+
+
 class AsyncTaskCancelledError(GeneratorExit):
     pass
 
@@ -277,8 +289,7 @@ class AsyncTask(futures.FutureBase):
             # when there is no _task it means that this is the bottommost level of the async
             # task. We must attach the traceback as soon as possible
             if not hasattr(error, "_task"):
-                error._task = self
-                core_errors.prepare_for_reraise(error)
+                _prepare_for_reraise(error, self)
             else:
                 # when we already have the _task on the error, it means that
                 # some child generator of ours had an error.
@@ -290,7 +301,10 @@ class AsyncTask(futures.FutureBase):
                 # this is really important. if we keep updating this traceback,
                 # we can glue all the different tasks' tracebacks and make it look like
                 # the error came from there.
-                error._traceback = sys.exc_info()[2]
+                try:
+                    error._traceback = sys.exc_info()[2]
+                except Exception:
+                    pass  # see _prepare_for_reraise
 
             if _debug_options.DUMP_EXCEPTIONS:
                 debug.dump_error(error)
@@ -417,7 +431,7 @@ class AsyncTask(futures.FutureBase):
                 ctx.pause()
             except BaseException as e:
                 error = e
-                core_errors.prepare_for_reraise(error)
+                _prepare_for_reraise(error)
         if error is not None:
             self._accept_error(error)
 
@@ -434,7 +448,7 @@ class AsyncTask(futures.FutureBase):
             except BaseException as e:
                 if error is None:
                     error = e
-                    core_errors.prepare_for_reraise(error)
+                    _prepare_for_reraise(error)
         if error is not None:
             self._accept_error(error)
 
